@@ -157,6 +157,57 @@ def run(prog, chk):
     chk.count('scope openings', nb, 5)
     chk.count('activation functions', nact, 4)
 
+    value_array_subscripts(prog, chk, R, 'R07.4')
+    # ---- R07.10: the value of an expression depends on the program state only ----------------------
+    # no variable with static storage duration in the evaluator's sources is mutable (a formatting stream kept between calls
+    # carries `fixed`/precision from one echoed value into the next; a cached result survives a shot).  Same rule as C18's R18.2,
+    # restricted to the evaluator and the simulator.
+    chk.rule('R07.10', 'no mutable static or thread-local storage in the evaluator: evaluation depends on the program state only')
+    nst = 0
+    for key, gl in prog.facts.globals.items():
+        if not (gl['file'].endswith('runtime_evaluator.cpp') or gl['file'].endswith('runtime_evaluator.hpp')):
+            continue
+        nst += 1
+        ok = gl['const'] or ('lambda at' in gl['type'] and SX.is_node(gl.get('init')) and gl['init'].get('k') == 'lambda' and not gl['init'].get('captures') and not gl['init'].get('defcap'))
+        chk.ob('R07.10', gl['name'], '%s:%s' % (prog.rel(gl['file']), gl['ln']), ok,
+               'static-storage variable %s in the evaluator must be constant%s' % (gl['name'].split('::')[-1], '' if ok else ' (it keeps state from one evaluation to the next)'),
+               key='static:' + gl['name'].split('::')[-1], nontrivial=not gl['const'])
+    chk.count('static-storage variables in the evaluator', nst, 2)
+    # / by zero test (floating division in the `/` branch)
+    ev_top = ev
+    ev = _handler(prog, ev_top, 'BinaryExpression')[0]       # eval itself, or the helper the binary handler forwards to
+    g = prog.cfg(ev)
+    divs = [n for n in SX.walk(ev.body, into_lambdas=False) if n['k'] == 'bin' and n['op'] == '/' and n.get('t') == 'double' and SX.strip(n['r']).get('k') == 'ref']
+    nd = 0
+    for n in divs:
+        node = _node_containing(g, n)
+        d = SX.show(SX.strip(n['r']))
+        if node is None:
+            continue
+        # only the language-level division: guarded by op == "/"
+        if not any(pol and '"/"' in SX.show(ce) for ce, pol, _ in g.guards(node)):
+            continue
+        nd += 1
+        ok = any((cmp_with_const(ce, d) == ('==', 0) and not pol) or (cmp_with_const(ce, d) == ('!=', 0) and pol) for ce, pol, _ in g.guards(node))
+        chk.ob('R07.4', ev, n.get('ln', ev.ln), ok, 'division by %s is dominated by the zero test that raises "division by zero"' % d, key='div-zero')
+        # R07.5 the enclosing return builds a Float
+        ret = node if node.kind == 'return' else None
+        txt = SX.show(node.e.get('e') if node.kind == 'return' else node.e)
+        chk.ob('R07.5', ev, n.get('ln', ev.ln), 'Float' in txt, '`/` returns a Float-tagged value: %s' % txt[:60], key='div-float')
+    chk.count('language-level divisions', nd, 1)
+    ev = ev_top
+
+    # ---- R07.6 numeric routing of the binary-operator cascade ----------------------------------------
+    _tag_table(prog, chk, ev)
+    _cast_table(prog, chk, ev)
+    _unary_table(prog, chk, ev)
+    _routing(prog, chk, ev)
+
+
+
+def value_array_subscripts(prog, chk, R, rule):
+    """R07.4 (also run by C12 as part of R12.12): every computed subscript of a value array is dominated by the bounds test on the
+    same container — see the rule text in run()"""
     # ---- R07.4 subscripts ------------------------------------------------------------------------
     nsub = 0
     from ..kcanon import Canon
@@ -227,7 +278,7 @@ def run(prog, chk):
                 deferred.add(id(n))          # a helper's subscript by its parameters: decided at the call sites below
                 nsub -= 1
                 continue
-            chk.ob('R07.4', f, n.get('ln', f.ln), lo and hi, '%s[%s] needs the dominating test %s < 0 || %s >= %s.size() (found lower=%s upper=%s)' % (btxt[-30:], itxt, itxt, itxt, btxt[-30:], lo, hi),
+            chk.ob(rule, f, n.get('ln', f.ln), lo and hi, '%s[%s] needs the dominating test %s < 0 || %s >= %s.size() (found lower=%s upper=%s)' % (btxt[-30:], itxt, itxt, itxt, btxt[-30:], lo, hi),
                    key='subscript:%s:%s[%s]' % (f.short, base['name'], itxt))
     # subscripts inside file-local helper functions (`elementAt(coll, index)`): the obligation is transferred to every call site —
     # there the index argument is known non-negative and below the per-kind length of the array argument
@@ -273,55 +324,10 @@ def run(prog, chk):
                         if c0 and ((c0 == ('<', 0) and not pol) or (c0 == ('>=', 0) and pol)):
                             lo2 = True
                     hi2 = _upper_by_length_fn(prog, cn2, g2, node2, jt, SX.show(cn2.expand(_peel(a_arr))), base['name'], ltabs, kind=kind)
-                chk.ob('R07.4', f2, c.get('ln', f2.ln), lo2 and hi2,
+                chk.ob(rule, f2, c.get('ln', f2.ln), lo2 and hi2,
                        '%s(…) subscripts %s.%s[%s] for kind %s: the call needs the dominating test %s < 0 || %s >= <length of that array> (found lower=%s upper=%s)' % (
                            h.short, SX.show(_peel(a_arr))[:20], base['name'], jt, kind, jt, jt, lo2, hi2), key='subscript:%s:%s:%s' % (f2.short, h.short, base['name']))
     chk.count('computed subscripts of value arrays', nsub, 12)
-    # ---- R07.10: the value of an expression depends on the program state only ----------------------
-    # no variable with static storage duration in the evaluator's sources is mutable (a formatting stream kept between calls
-    # carries `fixed`/precision from one echoed value into the next; a cached result survives a shot).  Same rule as C18's R18.2,
-    # restricted to the evaluator and the simulator.
-    chk.rule('R07.10', 'no mutable static or thread-local storage in the evaluator: evaluation depends on the program state only')
-    nst = 0
-    for key, gl in prog.facts.globals.items():
-        if not (gl['file'].endswith('runtime_evaluator.cpp') or gl['file'].endswith('runtime_evaluator.hpp')):
-            continue
-        nst += 1
-        ok = gl['const'] or ('lambda at' in gl['type'] and SX.is_node(gl.get('init')) and gl['init'].get('k') == 'lambda' and not gl['init'].get('captures') and not gl['init'].get('defcap'))
-        chk.ob('R07.10', gl['name'], '%s:%s' % (prog.rel(gl['file']), gl['ln']), ok,
-               'static-storage variable %s in the evaluator must be constant%s' % (gl['name'].split('::')[-1], '' if ok else ' (it keeps state from one evaluation to the next)'),
-               key='static:' + gl['name'].split('::')[-1], nontrivial=not gl['const'])
-    chk.count('static-storage variables in the evaluator', nst, 2)
-    # / by zero test (floating division in the `/` branch)
-    ev_top = ev
-    ev = _handler(prog, ev_top, 'BinaryExpression')[0]       # eval itself, or the helper the binary handler forwards to
-    g = prog.cfg(ev)
-    divs = [n for n in SX.walk(ev.body, into_lambdas=False) if n['k'] == 'bin' and n['op'] == '/' and n.get('t') == 'double' and SX.strip(n['r']).get('k') == 'ref']
-    nd = 0
-    for n in divs:
-        node = _node_containing(g, n)
-        d = SX.show(SX.strip(n['r']))
-        if node is None:
-            continue
-        # only the language-level division: guarded by op == "/"
-        if not any(pol and '"/"' in SX.show(ce) for ce, pol, _ in g.guards(node)):
-            continue
-        nd += 1
-        ok = any((cmp_with_const(ce, d) == ('==', 0) and not pol) or (cmp_with_const(ce, d) == ('!=', 0) and pol) for ce, pol, _ in g.guards(node))
-        chk.ob('R07.4', ev, n.get('ln', ev.ln), ok, 'division by %s is dominated by the zero test that raises "division by zero"' % d, key='div-zero')
-        # R07.5 the enclosing return builds a Float
-        ret = node if node.kind == 'return' else None
-        txt = SX.show(node.e.get('e') if node.kind == 'return' else node.e)
-        chk.ob('R07.5', ev, n.get('ln', ev.ln), 'Float' in txt, '`/` returns a Float-tagged value: %s' % txt[:60], key='div-float')
-    chk.count('language-level divisions', nd, 1)
-    ev = ev_top
-
-    # ---- R07.6 numeric routing of the binary-operator cascade ----------------------------------------
-    _tag_table(prog, chk, ev)
-    _cast_table(prog, chk, ev)
-    _unary_table(prog, chk, ev)
-    _routing(prog, chk, ev)
-
 
 
 def _handler(prog, ev, cls):
